@@ -18,6 +18,8 @@ REPS = {
     "mdn": (["-i", "mdn"], lambda n: "%d" % R.mdn(n), None),
     "jdn": (["-i", "jdn"], lambda n: "%.6f" % R.jdn(n), None),
     "bizda": ([], R.f_bizda, R.is_bday),
+    # epoch seconds (midnight UTC of the day), in and out
+    "epoch": (["-i", "%s", "-f", "%s"], lambda n: "%d" % R.epoch(n), lambda n: abs(R.epoch(n)) < 9 * 10 ** 9),
     # Sundays with the weekday written 00, the form the project's own tests use (input only)
     "ymcw0": ([], lambda n: R.f_ymcw(n)[:-2] + "00", lambda n: R.wday(n) == 7),
 }
@@ -55,8 +57,11 @@ def sweep(ctx, sub, V, rep, durs, days, expect, tagf, nontrivial=None, extra_arg
             ns.append(n)
         if not ins:
             continue
+        # with -i %s a first argument like -1d would itself read as an epoch value (-1, rest ignored):
+        # a leading +0s keeps the arguments unambiguous
+        pre = ["+0s"] if rep == "epoch" else []
         try:
-            out, _ = run_lines(ctx.build, "dadd", list(extra_args) + args0 + ["--"] + dargs, ins)
+            out, _ = run_lines(ctx.build, "dadd", list(extra_args) + args0 + ["--"] + pre + dargs, ins)
         except BatchError as e:
             V.add("batch:" + tagf(info), {"rep": rep, "dur": dargs, "ins": ins[:3], "kind": "batch"},
                   detail=str(e), actual=e.result.brief())
@@ -81,10 +86,11 @@ def replay_one(ctx, case, expect_text):
     args0 = REPS[rep][0]
     if case.get("kind") == "batch":
         try:
-            run_lines(ctx.build, "dadd", args0 + ["--"] + case["dur"], case["ins"])
+            run_lines(ctx.build, "dadd", args0 + ["--"] + (["+0s"] if rep == "epoch" else []) + case["dur"], case["ins"])
         except BatchError as e:
             return {"detail": str(e), "result": e.result.brief()}
         return None
-    out, _ = run_lines(ctx.build, "dadd", list(case.get("extra", [])) + args0 + ["--"] + case["dur"], [case["in"]])
+    pre = ["+0s"] if rep == "epoch" else []
+    out, _ = run_lines(ctx.build, "dadd", list(case.get("extra", [])) + args0 + ["--"] + pre + case["dur"], [case["in"]])
     return None if out[0] == expect_text else {"in": case["in"], "dur": case["dur"],
                                               "expected": expect_text, "actual": out[0]}
